@@ -105,7 +105,7 @@ func c11(p *Pkg, _ *Pkg, payload json.RawMessage, res *Result) {
 			k := k
 			fn := func(r *http.Request, token string) (*http.Request, bool) {
 				consulted = append(consulted, k)
-				if token == "good-"+k {
+				if token == goodToken(k) {
 					return r.WithContext(context.WithValue(r.Context(), markKey{}, k)), true
 				}
 				if nilOnReject {
@@ -179,7 +179,7 @@ func c11(p *Pkg, _ *Pkg, payload json.RawMessage, res *Result) {
 					}
 					cr := refmodel.Cred{Present: st != 0, Valid: st == 1, Installed: installed[k]}
 					creds[k] = cr
-					tok := map[int]string{1: "good-" + k, 2: "bad"}[st]
+					tok := map[int]string{1: goodToken(k), 2: "bad"}[st]
 					desc = append(desc, fmt.Sprintf("%s(%s)=%s/%s", k, s.Kind, []string{"absent", "valid", "invalid"}[st], map[bool]string{true: "installed", false: "nil"}[installed[k]]))
 					if st == 0 {
 						continue
@@ -233,9 +233,9 @@ func c11(p *Pkg, _ *Pkg, payload json.RawMessage, res *Result) {
 							continue
 						}
 						val := hdr.Get(c)
-						want := "good-" + k
+						want := goodToken(k)
 						if schemes[k].Kind == "bearer" {
-							want = "Bearer good-" + k
+							want = "Bearer " + goodToken(k)
 						}
 						creds[k] = refmodel.Cred{Present: val != "", Valid: val == want, Installed: installed[k]}
 					}
@@ -388,3 +388,8 @@ func secAttrs(pl SecPayload, sop refmodel.SecOp, schemes map[string]refmodel.Sch
 	return map[string]string{"opConj": b(conj), "opBearer": b(lists(sop, "bearer")), "siblingBearer": b(sibBearer), "opUnsupported": uns,
 		"nilAuth": b(nilAuth), "opPublic": b(len(sop.Effective) == 0)}
 }
+
+// goodToken is the credential the authenticator of scheme k accepts. It looks like a real token: JWTs
+// start with "eyJ", i.e. with letters that also occur in the word "Bearer", so prefix handling that
+// works on character sets instead of the literal prefix shows.
+func goodToken(k string) string { return "eyJ.rea-" + k }
